@@ -161,6 +161,7 @@ class Ctx:
         self.trusted = []
         self.explanation = ""
         self.measured = {}
+        self.renames = []
         self.calibrating = bool(os.environ.get("VERIF_CALIBRATE"))
         with open(FLOORS) as fh:
             self.floors = json.load(fh)
@@ -180,6 +181,8 @@ class Ctx:
             self.db = None
         if self.db is None:
             self.db = facts.DB(d)
+        from . import rename
+        self.renames = rename.load_notes(d)
         return self.db
 
     def rule(self, rid, text):
@@ -198,6 +201,8 @@ class Ctx:
         os.makedirs(EVID, exist_ok=True)
         rep_dir = os.path.join(EVID, "replay")
         lines = []
+        for n in self.renames:
+            lines.append("RENAMED %s (reports use the reviewed name)" % n)
         for r in self.rules:
             lines.append("RULE %s instances=%d discharged=%d" % (r.id, r.obligations, r.discharged))
         seen_known = set()
@@ -247,6 +252,7 @@ class Ctx:
                 "rules": [{"id": r.id, "text": r.text, "instances": r.obligations, "discharged": r.discharged,
                            "analysed": r.analysed} for r in self.rules],
                 "fact_kinds": self.kinds,
+                "renames_applied": self.renames,
                 "instance_counts": self.measured,
                 "known_findings_open": sorted(seen_known),
                 "exhaustive": False,
